@@ -61,7 +61,7 @@ def _run_history(progs, form1, form2, form3, i1, i2, vb_spelled, shelve, compres
 
 def ob_hist(form1: int, form2: int, form3: int, pair: int, swap: bool, vb_spelled: bool, shelve: bool) -> bool:
     """
-    pre: 0 <= form1 <= 5 and 0 <= form2 <= 5 and 0 <= form3 <= 5
+    pre: 0 <= form1 <= 6 and 0 <= form2 <= 6 and 0 <= form3 <= 6
     pre: 0 <= pair <= 200
     post: _
     """
@@ -70,7 +70,9 @@ def ob_hist(form1: int, form2: int, form3: int, pair: int, swap: bool, vb_spelle
     full = H.P("full_universe", False)
     npairs = len(U) * len(U) if full else H.P("npairs", len(PAIRS))
     H.assume(pair < npairs)
-    fm1, fm2, fm3 = H.select(form1, 0, 5), H.select(form2, 0, 5), H.select(form3, 0, 5)
+    nf = len(memcalls.forms_for(progs[0]))
+    H.assume(form1 < nf and form2 < nf and form3 < nf)
+    fm1, fm2, fm3 = H.select(form1, 0, nf - 1), H.select(form2, 0, nf - 1), H.select(form3, 0, nf - 1)
     if H.P("fix_form2", True):
         H.assume(form2 == form1)
     pi = H.select(pair, 0, npairs - 1)
